@@ -1,0 +1,15 @@
+//go:build verif
+
+package crypto
+
+import "github.com/jcmturner/gokrb5/v8/crypto/etype"
+
+// Lemma functions for the gowp verifier (/verif): empty bodies, compiled only with -tags verif, never called. Their
+// contracts (in zz_contracts_verif.go) state consequences of the message-level specification that the verifier
+// proves from the specification alone - here: decrypting an RFC encryption gives the message back (property C05).
+
+func lemmaRoundTrip(e etype.EType, key, conf, msg []byte, usage uint32) {}
+
+// Canary: a deliberately false consequence of the same specification. The check fails if this is ever proved
+// (an inconsistent specification or engine would prove anything).
+func lemmaCanaryRoundTrip(e etype.EType, key, conf, msg []byte, usage uint32) {}
